@@ -4,6 +4,7 @@ import (
 	"fmt"
 	"os/exec"
 	"strings"
+	"sync"
 )
 
 func init() { register("C08", checkC08) }
@@ -170,6 +171,7 @@ func checkC08(c *Ctx) {
 	}
 	checkCore(c, ncore, 8)
 	checkC08ScopeDiscipline(c)
+	checkC08LimitConsistency(c)
 	if c.Thorough() {
 		checkLongHistories(c, []int{1000, 400000})
 	} else {
@@ -349,4 +351,66 @@ func checkC08ScopeDiscipline(c *Ctx) {
 		}
 		c.Case("scope:"+meta[i], true)
 	})
+}
+
+// Every genuinely nested call counts towards the recursion limit, wherever it is made from: if plain recursion
+// of some call depth is refused, recursion of the same call depth whose calls are made from match arms, loop
+// bodies, arguments or conditions (at least as many frames) is refused too; and both work at a call depth of 1000.
+func checkC08LimitConsistency(c *Ctx) {
+	pool := NewPool(8, 0)
+	pool.Timeout = 240e9
+	defer pool.Close()
+	shapes := map[string]string{
+		"plain":      "function f(n) {\n  if (n > 0) {\n    return f(n - 1)\n  }\n  return \"bottom\"\n}\n",
+		"match-expr": "function f(n) {\n  return match (n) { 0 => \"bottom\", z => f(z - 1) }\n}\n",
+		"match-arm":  "function f(n) {\n  match (n) { 0 => {\n    return \"bottom\"\n  }, z => {\n    return f(z - 1)\n  } }\n}\n",
+		"nested-arm": "function f(n) {\n  return match (n) { 0 => \"bottom\", z => match (z) { y => f(y - 1) } }\n}\n",
+		"for-in":     "function f(n) {\n  for (q in [n]) {\n    if (q > 0) {\n      return f(q - 1)\n    }\n  }\n  return \"bottom\"\n}\n",
+		"argument":   "function id(x) {\n  return x\n}\nfunction f(n) {\n  if (n > 0) {\n    return id(f(n - 1))\n  }\n  return \"bottom\"\n}\n",
+		"condition":  "function f(n) {\n  if (n > 0 && f(n - 1) == \"bottom\") {\n    return \"bottom\"\n  }\n  return \"bottom\"\n}\n",
+		"mutual":     "function f(n) {\n  if (n > 0) {\n    return g(n - 1)\n  }\n  return \"bottom\"\n}\nfunction g(n) {\n  return match (n) { 0 => \"bottom\", z => f(z - 1) }\n}\n",
+	}
+	depths := []int{1000, 6000, 50000}
+	type key struct {
+		shape string
+		d     int
+	}
+	res := map[key]string{}
+	var jobs []Job
+	var keys []key
+	for name, fn := range shapes {
+		for _, d := range depths {
+			jobs = append(jobs, Job{Kind: "run", Prog: []byte(fn + fmt.Sprintf("BEGIN {\n  print \"start\"\n  print f(%d)\n}\n", d)), Budget: 50_000_000})
+			keys = append(keys, key{name, d})
+		}
+	}
+	var mu sync.Mutex
+	pool.Map(jobs, func(i int, r Result) {
+		mu.Lock()
+		defer mu.Unlock()
+		switch {
+		case r.Class == "ok" && string(r.Stdout) == "start\nbottom\n":
+			res[keys[i]] = "works"
+		case r.Class == "runtime" && string(r.Stdout) == "start\n":
+			res[keys[i]] = "refused"
+		case r.Class == "budget" || r.Class == "timeout":
+			res[keys[i]] = "inconclusive"
+		default:
+			res[keys[i]] = "other"
+			c.Violation("limit-consistency", map[string]any{"shape": keys[i].shape, "depth": keys[i].d, "program": string(jobs[i].Prog), "got_class": r.Class, "got_err": r.ErrMsg, "got_stdout": firstN(string(r.Stdout), 200),
+				"why": "a recursion either returns its value or is refused with a runtime error after the prior output"})
+		}
+	})
+	for name := range shapes {
+		if res[key{name, 1000}] == "refused" {
+			c.Violation("limit-consistency", map[string]any{"shape": name, "depth": 1000, "why": "recursion a thousand calls deep works, wherever the calls are made from"})
+		}
+		for _, d := range depths[1:] {
+			if res[key{"plain", d}] == "refused" && res[key{name, d}] == "works" {
+				c.Violation("limit-consistency", map[string]any{"shape": name, "depth": d, "program": shapes[name],
+					"why": "plain recursion of this call depth is refused, but the same call depth is accepted when the calls are made from " + name + ": those nested calls are not counted"})
+			}
+		}
+		c.Case("limitcons:"+name, true)
+	}
 }
